@@ -1824,9 +1824,105 @@ fn load_corpus(tier: Tier) -> Vec<FontInfo> {
             jobs.push(("derived:hvar_with_truncated_adv_index_map.ttf+big-gvar".to_string(), b, 0));
         }
     }
+    // Every glyf corpus font stores .notdef in HVAR's ItemVariationData #0, so kept glyphs always meet the
+    // subtables in ascending order. Derived fonts store the same deltas with the subtables permuted (two:
+    // swapped; three or more: rotated) and the index maps re-pointed; a gate requires identical advances
+    // and side bearings to the corpus font at {-1, -0.5, 0, 0.5, 1} for every glyph before they are used.
+    for base_name in ["vazirmatn_var_trimmed.ttf", "Comfortaa-Regular-new.ttf"] {
+        if let Some((_, base, _)) = jobs.iter().find(|j| j.0.ends_with(base_name)) {
+            if let Some(b) = with_permuted_hvar(base) {
+                jobs.push((format!("derived:{base_name}+permuted-hvar"), b, 0));
+            }
+        }
+    }
     jobs.into_par_iter()
         .filter_map(|(n, b, i)| load_font(n, b, i, tier))
         .collect()
+}
+
+/// Copy of a variable font whose HVAR ItemVariationData subtables are permuted (offset array permuted,
+/// the outer index of every DeltaSetIndexMap entry re-pointed). Returns None when the font has fewer than
+/// two subtables, no index map, or when the metric gate fails.
+fn with_permuted_hvar(bytes: &[u8]) -> Option<Vec<u8>> {
+    let font = FontRef::new(bytes).ok()?;
+    let tag = Tag::new(b"HVAR");
+    let mut hvar = font.data_for_tag(tag)?.as_bytes().to_vec();
+    let be16 = |b: &[u8], at: usize| -> Option<usize> { Some(u16::from_be_bytes([*b.get(at)?, *b.get(at + 1)?]) as usize) };
+    let be32 = |b: &[u8], at: usize| -> Option<usize> {
+        Some(u32::from_be_bytes([*b.get(at)?, *b.get(at + 1)?, *b.get(at + 2)?, *b.get(at + 3)?]) as usize)
+    };
+    // ItemVariationStore: format(2) regionListOffset(4) count(2) offsets(4 * count)
+    let ivs = be32(&hvar, 4)?;
+    let n = be16(&hvar, ivs + 6)?;
+    if n < 2 {
+        return None;
+    }
+    // new position of old subtable i: swap for two, rotate by one for more
+    let perm: Vec<usize> = (0..n).map(|i| (i + 1) % n).collect();
+    let old_offsets: Vec<Vec<u8>> = (0..n).map(|i| hvar[ivs + 8 + 4 * i..ivs + 12 + 4 * i].to_vec()).collect();
+    for i in 0..n {
+        let at = ivs + 8 + 4 * perm[i];
+        hvar[at..at + 4].copy_from_slice(&old_offsets[i]);
+    }
+    let mut patched = 0;
+    for field in [8usize, 12, 16] {
+        let map = be32(&hvar, field)?;
+        if map == 0 {
+            continue;
+        }
+        let format = *hvar.get(map)?;
+        let entry_format = *hvar.get(map + 1)?;
+        let entry_size = (((entry_format & 0x30) >> 4) + 1) as usize;
+        let bit_count = ((entry_format & 0x0F) + 1) as u32;
+        let (count, data) = if format == 0 { (be16(&hvar, map + 2)?, map + 4) } else { (be32(&hvar, map + 2)?, map + 6) };
+        let outer_bits = entry_size as u32 * 8 - bit_count;
+        if outer_bits == 0 || (n - 1) >> outer_bits != 0 {
+            return None;
+        }
+        for i in 0..count {
+            let at = data + i * entry_size;
+            let mut v = 0u32;
+            for k in 0..entry_size {
+                v = (v << 8) | *hvar.get(at + k)? as u32;
+            }
+            let outer = (v >> bit_count) as usize;
+            let inner = v & ((1 << bit_count) - 1);
+            if outer < n {
+                v = ((perm[outer] as u32) << bit_count) | inner;
+            }
+            for k in 0..entry_size {
+                hvar[at + k] = (v >> (8 * (entry_size - 1 - k))) as u8;
+            }
+        }
+        patched += 1;
+    }
+    if patched == 0 {
+        return None;
+    }
+    let mut fb = write_fonts::FontBuilder::new();
+    fb.add_raw(tag, hvar);
+    fb.copy_missing_tables(font.clone());
+    let out = fb.build();
+    // gate: identical metrics everywhere we look
+    {
+        let derived = FontRef::new(&out).ok()?;
+        let axes = font.axes().len();
+        let glyphs = font.maxp().ok()?.num_glyphs() as u32;
+        for v in [-1.0f32, -0.5, 0.0, 0.5, 1.0] {
+            let loc = vec![F2Dot14::from_f32(v); axes];
+            let a = font.glyph_metrics(Size::unscaled(), LocationRef::new(&loc));
+            let b = derived.glyph_metrics(Size::unscaled(), LocationRef::new(&loc));
+            for g in 0..glyphs {
+                let g = GlyphId::new(g);
+                if a.advance_width(g).map(f32::to_bits) != b.advance_width(g).map(f32::to_bits)
+                    || a.left_side_bearing(g).map(f32::to_bits) != b.left_side_bearing(g).map(f32::to_bits)
+                {
+                    return None;
+                }
+            }
+        }
+    }
+    Some(out)
 }
 
 /// Copy of a one-axis variable font whose gvar is rebuilt with write-fonts: the lower half of the glyph
